@@ -26,7 +26,7 @@ DEFS = ['-DHAS_PTHREAD=1', '-DHAS_UNISTD=1', '-DHAS_GETOPT=1', '-DHAS_LIBGEN=1',
 
 def reader_job(name, path, defs, witnesses=('end',), timeout=300, sample=None):
     return Job(name, [path] + SRCS, incs=[W], defs=DEFS + defs, unwind=12,
-               flags=['--no-malloc-may-fail', '--object-bits', '12', '--unwindset', 'harness.0:70,harness.1:70,harness.2:200,SHA1.0:21,put_custom.0:5,put_custom.1:5,wasmModuleRead.0:16'],
+               flags=['--no-malloc-may-fail', '--object-bits', '12', '--unwindset', 'harness.0:200,harness.1:200,harness.2:200,SHA1.0:21,put_custom.0:5,put_custom.1:5,wasmModuleRead.0:16'],
                backends=['sat'], witnesses=list(witnesses), timeout=timeout, sample=sample or {},
                replay=dict(sources=[path] + SRCS, incs=[W], defs=DEFS + defs, asan=True))
 
